@@ -195,7 +195,7 @@ def run(ck):
     cases = [ck.replaying["case"]] if ck.replaying else gen_cases(ck)
     reqs, pending, keep = [], [], []
     for case in cases:
-        keep.append(run_case(ck, case, reqs, pending))
+        keep.append(ck.guard(case, run_case, ck, case, reqs, pending))
     resps = ck.driver(reqs)
     for (case, earr, used, deletes, rowmap, M), resp in zip(pending, resps):
         compare(ck, case, earr, used, deletes, rowmap, M, resp)
